@@ -107,7 +107,7 @@ void DataArray::appendData(DataType dtype, const void *data, const NDSize &count
 void DataArray::unit(const std::string &unit) {
     std::string dblnk_unit = util::deblankString(unit);
     util::checkEmptyString(dblnk_unit, "unit");
-    if (this->dimensionCount() == 1 && this->getDimension(1).dimensionType() == nix::DimensionType::Range) {
+    if (this->dimensionCount() >= 1 && this->getDimension(1).dimensionType() == nix::DimensionType::Range) {
         nix::RangeDimension rd;
         rd = this->getDimension(1);
         if (rd.alias() && !(util::isSIUnit(dblnk_unit) || util::isCompoundSIUnit(dblnk_unit))) {
